@@ -9,6 +9,7 @@ UTPM.init_tensor / UTPM.extract_tensor and compared with exact / arbitrary preci
 the multi-index factorial.
 """
 import math
+import functools
 from fractions import Fraction
 
 import numpy as np
@@ -175,7 +176,7 @@ def _pair_nontrivial(case):
 
 CONSUMER_PAIRS = {
     'quick': [(N, d) for N in range(1, 7) for d in range(1, 7) if math.comb(N + d - 1, d) <= 15],
-    'thorough': [(N, d) for N in range(1, 7) for d in range(1, 8) if math.comb(N + d - 1, d) <= 28],
+    'thorough': [(N, d) for N in range(1, 7) for d in range(1, 8) if math.comb(N + d - 1, d) <= 21],
 }
 
 
@@ -202,7 +203,9 @@ def _labels(N, d, what):
     return _check_multi_indices(J, N, d, what)
 
 
+@functools.lru_cache(maxsize=None)
 def _gamma_abs(N, d):
+    """|Gamma| and the rays, used only for the error SCALE of the consumer checks (cached per (N, d))"""
     G, rays = guard(exint.generate_Gamma_and_rays, N, d)
     return np.abs(np.asarray(G, dtype=float)), np.asarray(rays, dtype=float)
 
@@ -453,9 +456,9 @@ def buckets(tier):
         bl.append(Bucket('pair:N=%d,d=%d' % (N, d), (lambda N=N, d=d: st.just({'N': N, 'd': d})), prop_pair,
                          {'quick': 1, 'thorough': 1}, nontrivial=_pair_nontrivial, classes=_pair_classes,
                          weight=_pair_cost(N, d)))
-    bl.append(Bucket('consumer:poly', (lambda: poly_cases(tier)), prop_poly, {'quick': 60, 'thorough': 400},
+    bl.append(Bucket('consumer:poly', (lambda: poly_cases(tier)), prop_poly, {'quick': 60, 'thorough': 250},
                      nontrivial=_poly_nontrivial, classes=_poly_classes, shards={'quick': 4, 'thorough': 8}, weight=1.0))
-    bl.append(Bucket('consumer:ridge', (lambda: ridge_cases(tier)), prop_ridge, {'quick': 40, 'thorough': 250},
+    bl.append(Bucket('consumer:ridge', (lambda: ridge_cases(tier)), prop_ridge, {'quick': 40, 'thorough': 150},
                      nontrivial=_ridge_nontrivial, classes=_ridge_classes, shards={'quick': 2, 'thorough': 6}, weight=1.0))
     return bl
 
